@@ -493,3 +493,62 @@ mutant("c12-awaitablevalue-suspends", "C12", "functools.py",
 neutral("c12-recheck-two-statements", ["C12", "C17", "C18"], "functools.py",
         "                if (stored := self._instance_value) is self:\n                    # the instance attribute is still this placeholder, and we\n",
         "                stored = self._instance_value\n                if stored is self:\n                    # the instance attribute is still this placeholder, and we\n")
+
+# --------------------------------------------------------------------------- C07 / C08
+mutant("c07-aclose-reaches-source", "C07", "asynctools.py",
+       "        await wrapper_iterator.aclose()\n",
+       "        await wrapper_iterator.aclose()\n        if hasattr(self.__wrapped__, 'aclose'):\n            await self.__wrapped__.aclose()\n",
+       rule="R07.1")
+mutant("c07-forward-aclose", "C07", "asynctools.py",
+       "        if hasattr(iterator, \"athrow\"):\n",
+       "        if hasattr(iterator, \"aclose\"):\n            self._close_source = iterator.aclose\n        if hasattr(iterator, \"athrow\"):\n",
+       rule="R07")
+mutant("c07-anext-from-source", "C07", "asynctools.py",
+       "        self.__anext__ = self._wrapper.__anext__  # type: ignore\n",
+       "        self.__anext__ = iterator.__anext__  # type: ignore\n", rule="R07")
+mutant("c07-aiter-returns-source", "C07", "asynctools.py",
+       "    def __aiter__(self) -> AsyncGenerator[T, S]:\n        return self\n",
+       "    def __aiter__(self) -> AsyncGenerator[T, S]:\n        return self.__wrapped__  # type: ignore\n", rule="R07")
+mutant("c07-athrow-not-redirected", "C07", "asynctools.py",
+       "        if hasattr(self, \"athrow\"):\n            self.athrow = wrapper_iterator.athrow\n", "", rule="R07.3")
+mutant("c07-borrow-returns-source-for-generators", "C07", "asynctools.py",
+       "    return _BorrowedAsyncIterator[T, Any](iterator)\n",
+       "    if hasattr(iterator, 'asend'):\n        return iterator\n    return _BorrowedAsyncIterator[T, Any](iterator)\n",
+       rule="R07.4")
+mutant("c07-islice-skip-unborrowed", "C07", "itertools.py",
+       "async for _count, element in aenumerate(_borrow(async_iter), start=1):",
+       "async for _count, element in aenumerate(async_iter, start=1):", rule="R07.4", unit="itertools.islice")
+mutant("c07-largest-unborrowed", "C07", "heapq.py",
+       "async for index, item in a_zip(range(n), borrow(iterator))", "async for index, item in a_zip(range(n), iterator)",
+       rule="R07.4", unit="heapq._largest")
+mutant("c07-core-borrow-closes", "C07", "_core.py",
+       "    return (item async for item in iterator)\n",
+       "    async def _view() -> AsyncGenerator[T, None]:\n        async with ScopedIter(iterator) as it:\n            async for item in it:\n                yield item\n\n    return _view()\n",
+       rule="R07.4")
+mutant("c08-scoped-aclose-closes", "C08", "asynctools.py",
+       "    async def aclose(self) -> None:\n        pass\n",
+       "    async def aclose(self) -> None:\n        await self._aclose_wrapper()\n", rule="R08.1")
+mutant("c08-enter-returns-raw", "C08", "asynctools.py",
+       "        self._borrowed_iter = _ScopedAsyncIterator(self._iterator)\n        return self._borrowed_iter\n",
+       "        self._borrowed_iter = _ScopedAsyncIterator(self._iterator)\n        return self._iterator\n", rule="R08.2")
+mutant("c08-exit-skips-on-error", "C08", "asynctools.py",
+       "        await self._borrowed_iter._aclose_wrapper()  # type: ignore\n        await self._iterator.aclose()  # type: ignore\n",
+       "        await self._borrowed_iter._aclose_wrapper()  # type: ignore\n        if args[0] is None:\n            await self._iterator.aclose()  # type: ignore\n",
+       rule="R08.3")
+mutant("c08-exit-forgets-wrapper", "C08", "asynctools.py",
+       "        await self._borrowed_iter._aclose_wrapper()  # type: ignore\n        await self._iterator.aclose()  # type: ignore\n",
+       "        await self._iterator.aclose()  # type: ignore\n", rule="R08.3")
+mutant("c08-exit-closes-twice", "C08", "asynctools.py",
+       "        await self._iterator.aclose()  # type: ignore\n\n    def __repr__(self) -> str:\n        return f\"<{self.__class__.__name__}",
+       "        await self._iterator.aclose()  # type: ignore\n        await self._iterator.aclose()  # type: ignore\n\n    def __repr__(self) -> str:\n        return f\"<{self.__class__.__name__}",
+       rule="R08.3")
+mutant("c08-unwrap-nested", "C08", "asynctools.py",
+       "    return _ScopedAsyncIteratorContext(iterator)\n",
+       "    if isinstance(iterator, _ScopedAsyncIterator):\n        iterator = iterator.__wrapped__\n    return _ScopedAsyncIteratorContext(iterator)\n",
+       rule="R08.4")
+mutant("c08-neutral-for-closeable", "C08", "asynctools.py",
+       "    if not hasattr(iterator := aiter(iterable), \"aclose\"):\n",
+       "    if hasattr(iterator := aiter(iterable), \"aclose\"):\n", rule="R08.4")
+neutral("c08-exit-signature", ["C08", "C07", "C06"], "asynctools.py",
+        "    async def __aexit__(self, *args: Any) -> None:\n        await self._borrowed_iter._aclose_wrapper()",
+        "    async def __aexit__(self, exc_type: Any, exc_val: Any, exc_tb: Any) -> None:\n        await self._borrowed_iter._aclose_wrapper()")
